@@ -44,7 +44,9 @@ vars == <<place, rot, mir>>
 
 N == Arity(Cls)
 (* the centre keeps identifier 1 on position 1; ligand identifiers 2..N are placed on positions 2..N *)
-Placements == { t \in Perms(N) : t[1] = 1 }
+Placements == IF Cls = "PlanarBond"
+                THEN { t \in Perms(N) : {t[3], t[4]} = {3, 4} }      \* bond atoms 3, 4; substituents 1, 2, 5, 6 anywhere
+                ELSE { t \in Perms(N) : t[1] = 1 }
 PlaceSeq == SetToSeq(Placements)
 Pick(i, r, m) == SampleMod <= 1 \/ (i * 131 + r * 17 + (IF m THEN 7 ELSE 0)) % SampleMod = 0
 
@@ -55,7 +57,7 @@ Spec == Init /\ [][Next]_vars
 
 Point(k) ==       \* lattice point of figure position k after rotation / reflection
    LET p0 == Apply(RotSeq[rot], Figure(Cls)[k]) IN IF mir THEN Mirror(p0) ELSE p0
-ExpPar == IF Cls \in {"SquarePlanar"} THEN 0 ELSE FigParity(Cls) * (IF mir THEN -1 ELSE 1)
+ExpPar == IF Cls \in {"SquarePlanar", "PlanarBond"} THEN 0 ELSE FigParity(Cls) * (IF mir THEN -1 ELSE 1)
 T == PlaceSeq[place]          \* T[k] = identifier on position k
 (* every spelling of the expected descriptor *)
 Spellings ==
